@@ -10,6 +10,8 @@ import math
 import numpy as np
 from hypothesis import strategies as st
 
+import equinox as eqx
+import jax
 import jax.numpy as jnp
 
 import exponax as ex
@@ -139,6 +141,12 @@ def sweep_check(case):
         return res
     expect_raises(res, "stepper_rejects_malformed_state", lambda: S(u), ValueError, key + ":stepper")
     expect_raises(res, "repeated_stepper_rejects_malformed_state", lambda: RS(u), ValueError, key + ":repeated")
+    # a single sub-step is still a RepeatedStepper; compiled / mapped / scanned entry points see tracers, whose shapes
+    # are as static as those of concrete arrays
+    expect_raises(res, "repeated_stepper_1_rejects_malformed_state", lambda: ex.RepeatedStepper(S, 1)(u), ValueError, key + ":repeated1")
+    expect_raises(res, "jit_stepper_rejects_malformed_state", lambda: eqx.filter_jit(S)(u), ValueError, key + ":jit")
+    expect_raises(res, "rollout_rejects_malformed_state", lambda: ex.rollout(S, 2)(u), ValueError, key + ":rollout")
+    expect_raises(res, "vmap_stepper_rejects_malformed_state", lambda: jax.vmap(S)(jnp.stack([u, u])), ValueError, key + ":vmap")
     return res
 
 
